@@ -259,7 +259,9 @@ pub fn hash_of(hmode: u8, k: u64) -> u64 {
 fn on_foyer_event(kind: &'static str, a: u64, b: u64) {
     match kind {
         "shed" => {
-            hist::ev("shed", a, b, 0);
+            // b = reason | (engine sequence + 1) << 8 (0: the entry had no sequence yet)
+            let (b, seq1) = (b & 0xff, b >> 8);
+            hist::ev("shed", a, b, seq1);
             hist::probe(match b {
                 1 => "shed_no_header_space",
                 2 => "shed_buffer_size_limit",
@@ -420,6 +422,8 @@ async fn open_inner(case: &Case, ctl: &Ctl) -> Result<HCache, String> {
     let pickers: Vec<Box<dyn EvictionPicker>> = match case.get("picker") {
         1 => vec![Box::new(FifoPicker::new(1.0))],
         2 => vec![Box::new(FifoPicker::new(0.0))],
+        // a third of the blocks on probation (marks must move on as blocks are reclaimed and reused)
+        3 => vec![Box::new(FifoPicker::new(0.34))],
         _ => vec![Box::new(InvalidRatioPicker::new(0.8)), Box::<FifoPicker>::default()],
     };
     let mut engine = BlockEngineConfig::new(dev)
@@ -1184,7 +1188,7 @@ pub fn note_source(k: u64, s: Source) {
     }
 }
 
-fn src(s: Source) -> u64 {
+pub fn src(s: Source) -> u64 {
     match s {
         Source::Outer => 1,
         Source::Memory => 2,
